@@ -32,6 +32,9 @@ type c05Scenario struct {
 	// optional misbehaviour of the (first) client process: exit0 exit1 closeout garbage unknown, once k answers were emitted
 	ClientFault   string `json:"client_fault,omitempty"`
 	ClientFaultAt int    `json:"client_fault_at,omitempty"`
+	// ServerHost / EchoCert: what every server reports about itself (see c11Scenario.Host); "" = varies by start index
+	ServerHost string `json:"server_host,omitempty"`
+	EchoCert   bool   `json:"echo_cert,omitempty"`
 	// SyncStdin: the client's input pipe has io.Pipe's semantics (a write completes only when the client reads)
 	SyncStdin bool `json:"sync_stdin,omitempty"`
 }
@@ -266,6 +269,16 @@ func c05Body(x *gate.Exec, sc c05Scenario) (*c05Obs, func()) {
 		if k == sc.FailStart {
 			s.StartErr = true
 		}
+		// servers differ in what they report: the host by name, as an IPv6 literal or not at all, and (under
+		// TLS) a certificate of their own or the one they were offered
+		s.Host = []string{"", "localhost", "::1", "none"}[k%4]
+		s.EchoCert = k%2 == 1
+		if sc.ServerHost != "" {
+			s.Host, s.EchoCert = sc.ServerHost, sc.EchoCert
+			if s.Host == "default" {
+				s.Host = ""
+			}
+		}
 		return s
 	}
 	w.answer = func(kind string, j int, req *conformancev1.ClientCompatRequest) *conformancev1.ClientCompatResponse {
@@ -389,6 +402,7 @@ func c05Judge(sc c05Scenario, obs *c05Obs, x *gate.Exec) []gateVerdict {
 			s.srv.mu.Lock()
 			got := s.srv.gotRequest
 			port := s.srv.port
+			repHost, repCert := s.srv.repHost, s.srv.repCert
 			s.srv.mu.Unlock()
 			if got == nil {
 				why = append(why, fmt.Sprintf("server#%d has no request yet", idx))
@@ -400,10 +414,14 @@ func c05Judge(sc c05Scenario, obs *c05Obs, x *gate.Exec) []gateVerdict {
 			}
 			wantCert := []byte(nil)
 			if got.UseTls {
-				wantCert = []byte(fmt.Sprintf("-----BEGIN CERTIFICATE-----\nfake%d\n-----END CERTIFICATE-----\n", port))
+				wantCert = repCert
 			}
-			if r.req.Host != "127.0.0.1" || r.req.Port != port || !bytes.Equal(r.req.ServerTlsCert, wantCert) {
-				why = append(why, fmt.Sprintf("server#%d is at 127.0.0.1:%d cert=%q but request says %s:%d cert=%q", idx, port, wantCert, r.req.Host, r.req.Port, r.req.ServerTlsCert))
+			wantHost := repHost
+			if wantHost == "" {
+				wantHost = "127.0.0.1" // an empty host in the server's response stands for the default host
+			}
+			if r.req.Host != wantHost || r.req.Port != port || !bytes.Equal(r.req.ServerTlsCert, wantCert) {
+				why = append(why, fmt.Sprintf("server#%d reported %q:%d cert=%q but the request says %s:%d cert=%q", idx, repHost, port, wantCert, r.req.Host, r.req.Port, r.req.ServerTlsCert))
 				continue
 			}
 			if e.inst.useTLSClientCerts != (r.req.ClientTlsCreds != nil) {
@@ -601,22 +619,31 @@ func TestVerifC05TLS(t *testing.T) {
 	defer r.Write()
 	r.Rule = "TLS and client-certificate server instances through run() with scripted peers, default schedule only (certificate generation is slow); one execution per (mode, suites, max-servers)"
 	var k int64
+	type hv struct {
+		host string
+		echo bool
+	}
 	for _, mode := range []string{"both", "client", "server"} {
 		for _, su := range []string{"two", "mix"} {
 			for _, ms := range []int{1, 2, 4} {
-				k++
-				if !r.Mine(k) {
-					continue
-				}
-				sc := c05Scenario{Cfg: "T", Suites: su, Mode: mode, MaxServers: ms, FailStart: -1}
-				x, obs, _ := c05RunOne(t, sc, nil, nil)
-				_ = x
-				r.Eval(1)
-				r.NonTrivial("")
-				r.Outcome(c05Outcome(sc, obs))
-				r.Sample(map[string]any{"scenario": sc, "outcome": c05Outcome(sc, obs)})
-				for _, v := range obs.Verdicts {
-					r.Violate(v.key, v.detail, map[string]any{"scenario": sc, "choices": []int{}})
+				for _, h := range []hv{{"", false}, {"localhost", true}, {"::1", true}, {"none", true}, {"localhost", false}, {"default", true}} {
+					if h.host != "" && (ms == 4 || (mode != "both" && su == "mix")) {
+						continue
+					}
+					k++
+					if !r.Mine(k) {
+						continue
+					}
+					sc := c05Scenario{Cfg: "T", Suites: su, Mode: mode, MaxServers: ms, FailStart: -1, ServerHost: h.host, EchoCert: h.echo}
+					x, obs, _ := c05RunOne(t, sc, nil, nil)
+					_ = x
+					r.Eval(1)
+					r.NonTrivial("")
+					r.Outcome(c05Outcome(sc, obs))
+					r.Sample(map[string]any{"scenario": sc, "outcome": c05Outcome(sc, obs)})
+					for _, v := range obs.Verdicts {
+						r.Violate(v.key, v.detail, map[string]any{"scenario": sc, "choices": []int{}})
+					}
 				}
 			}
 		}
